@@ -178,6 +178,16 @@ func vSpawned() int { return -1 }
 // assumption in the evidence of every check that relies on the contract.
 func vTrusted(why string) {}
 
+// vModifiesElems: like vModifiesBytes for a slice of any element type: the target may write the
+// elements s[0:len(s)] (give s[:cap(s)] to include the spare capacity).
+func vModifiesElems[T any](s []T) {}
+
+// vBorrowed: the buffer is only lent to the target for the duration of the call: no view of it
+// (no sub-slice, no string sharing its bytes) may be stored in memory that outlives the call.
+// Checked at every store of the code under verification; in a contract it also tells callers
+// that passing a borrowed buffer for this parameter is fine.
+func vBorrowed(b []byte) {}
+
 // vModifiesWire declares that the target may send frames.
 func vModifiesWire() {}
 
